@@ -29,6 +29,8 @@ def ftype(T):
 
 def flit(v, T):
     t = ir.TYPES[T]
+    if t.get("char"):
+        return "achar(%d)" % v
     if t["k"] == "i":
         if not t["signed"]:
             v = ir.wrap_int(v, {32: "int", 64: "long"}[t["bits"]])      # same bits, Fortran has no unsigned
@@ -50,6 +52,8 @@ def fstr(s):
 
 def prn(T, name, expr):
     t = ir.TYPES[T]
+    if t.get("char"):
+        return "call vfo_i('%s', int(iachar(%s), %s))" % (name, expr, LL)
     if t["k"] == "i":
         return "call vfo_i('%s', int(%s, %s))" % (name, expr, LL)
     if t["k"] == "r":
@@ -126,11 +130,16 @@ def gen_call(lib, k, call):
             if kd in ("arr_inout", "vec_inout"):
                 Pn.append(prn_arr(T, n, vn))
         elif kd in ("arr_out", "arr_out_fixed"):
-            cnt = args[p["dim"]] if kd == "arr_out" else p["K"]
-            D.append("%s :: %s(%d)" % (ftype(T), vn, cnt))
+            cnt = ir.arr_out_count(p, args) if kd == "arr_out" else p["K"]
+            if p.get("dims"):
+                ext = [int(eval(x, {}, dict(args))) for x in p["dims"]]
+                D.append("%s :: %s(%s)" % (ftype(T), vn, ",".join(str(e) for e in ext)))
+                Pn.append(prn_arr(T, n, "reshape(%s, [%d])" % (vn, cnt)))
+            else:
+                D.append("%s :: %s(%d)" % (ftype(T), vn, cnt))
+                Pn.append(prn_arr(T, n, vn))
             S.append("%s = %s" % (vn, "0"))
             A.append(vn)
-            Pn.append(prn_arr(T, n, vn))
         elif kd == "vec_out":
             L = fl[n]
             D.append("%s :: %s(%d)" % (ftype(T), vn, L))
@@ -278,17 +287,23 @@ def conv_out(call, p, want, lib=None, model_out=None):
         return _fixed(want, fl[p["name"]])
     if kd in ("cstr_len", "str_cref_len"):
         return _fixed(want, p["N"])
+    Tp = p.get("T")
+    uns = Tp in ir.TYPES and ir.TYPES[Tp]["k"] == "i" and not ir.TYPES[Tp]["signed"]
+
+    def uw(vals_):
+        # Fortran has no unsigned integers: same bits, read as signed
+        return [str(ir.wrap_int(int(x), {32: "int", 64: "long"}[ir.TYPES[Tp]["bits"]])) for x in vals_] if uns else vals_
     if kd == "vec_out":
         L = fl[p["name"]]
         tag, n, vals = want.split(":")
-        vals = [x for x in vals.split(",") if x != ""]
+        vals = uw([x for x in vals.split(",") if x != ""])
         sent = "-7" if tag == "ai" else str(ir.fbits(-7.0, "float" if tag == "ar4" else "double"))
         merged = vals[:L] + [sent] * max(0, L - len(vals))
         return "%s:%d:%s" % (tag, L, ",".join(merged))
     if kd == "vec_inout":
         L = len(call["args"][p["name"]])
         tag, n, vals = want.split(":")
-        vals = [x for x in vals.split(",") if x != ""]
+        vals = uw([x for x in vals.split(",") if x != ""])
         orig = call["args"][p["name"]]
         T = p["T"]
         keep = [str(x) if tag == "ai" else str(ir.fbits(x, T)) for x in orig]
